@@ -57,6 +57,14 @@ class FnExecutor(Executor):
 
     st_ImportFrom = st_Import
 
+    def st_FunctionDef(self, s, st):
+        """a nested def: only generator functions are supported as values (verified under their own contract)"""
+        from .calls import TGenFun
+        if any(isinstance(n, (ast.Yield, ast.YieldFrom)) for n in ast.walk(s)):
+            st.loc[s.name] = SV(TGenFun(), None)
+            return [Out('fall', st)]
+        raise Unbound('nested function %s (line %s)' % (s.name, s.lineno))
+
     def st_ClassDef(self, s, st):
         # local exception classes only
         bases = [b.id for b in s.bases if isinstance(b, ast.Name)]
@@ -556,7 +564,19 @@ class FnExecutor(Executor):
         raise Unbound('loop not found')
 
     def do_yield(self, y, st):
-        raise Unbound('yield')
+        """a yield may resume normally or be the point where the generator is closed (GeneratorExit raised here)"""
+        outs = []
+        rs = self.ev(y.value, st) if y.value is not None else [Res(st, NONE_V)]
+        for r in rs:
+            if r.exc is not None:
+                outs.append(Out('raise', r.st, exc=r.exc, node=r.node))
+                continue
+            g = r.st.ghost.get('yields')
+            if g is not None:
+                r.st.ghost['yields'] = SV(INT, g.z + 1)
+            outs.append(Out('fall', r.st))
+            outs.append(Out('raise', r.st.copy().note('L%s: generator closed at this yield' % y.lineno), exc='GeneratorExit', node=y))
+        return outs
 
 
 # ----------------------------------------------------------------------------------------------
@@ -580,6 +600,10 @@ def verify_function(contract, fndef, prefix, ghost_decl=None, module_consts=None
         st.type_facts(st.ghost[g])
     params = {}
     argnames = [a.arg for a in fndef.args.args]
+    if fndef.args.vararg is not None:
+        argnames.append(fndef.args.vararg.arg)
+    if fndef.args.kwarg is not None:
+        argnames.append(fndef.args.kwarg.arg)     # **kw: a record of the keywords given
     declared = list(contract.params)
     if argnames != declared:
         raise Unbound('parameter list of %s is %s, contract declares %s' % (contract.qualname, argnames, declared))
@@ -592,7 +616,13 @@ def verify_function(contract, fndef, prefix, ghost_decl=None, module_consts=None
             st.assume(v.z != NULL, z3.Select(st.alloc, v.z))
             ex.nonnull.add(v.z.decl().name())
             st.assume(ex.isinst(v.z, ty.cls))
-    # keyword defaults of the real signature become module constants (used when callers omit them)
+    for n, ty in getattr(contract, 'closure', {}).items():
+        v = fresh_sv(ty, 'cv_' + n)
+        params[n] = v
+        st.loc[n] = v
+        st.type_facts(v)
+    for n, v in getattr(contract, 'globals', {}).items():
+        ex.module_consts[n] = v
     ex.params = params
     entry = st.copy()
     ex.entry = entry
